@@ -341,6 +341,7 @@ func (g *c04Gen) genOp() hOp {
 					op.Checker = append(op.Checker, sn)
 				}
 			}
+			op.Checker = c04ModelChecker(g.w, st.Name, op.Checker) // fields the strategy writes whatever the checker says (store_c04_api.go)
 		}
 		if e, ok := g.ents[root][op.Id]; ok && valid {
 			for f, v := range op.F {
@@ -558,6 +559,11 @@ func exhaustC04(maxLen int, stats map[string]int) []string {
 // genC04 produces the seeded history stream of the C04 check: the four wirings in rotation; every
 // second round of four draws its ids from the hostile alphabet (so every wiring meets hostile ids).
 func genC04(seed int64, n int, stats map[string]int) []string {
+	return genC04W(seed, n, c04Wirings, stats)
+}
+
+// genC04W: the same stream over the given wirings (store_c04_api.go: the wirings whose checker names differ from the storage keys)
+func genC04W(seed int64, n int, c04Wirings []string, stats map[string]int) []string {
 	r := newRng(seed)
 	var lines []string
 	for i := 0; i < n; i++ {
@@ -655,6 +661,14 @@ func runStoreIso(o *opts) error {
 			}
 		}
 		lines = append(lines, genC04(o.seed, n, stats)...)
+		if o.get("sweep", "1") == "1" {
+			if o.thorough() {
+				lines = append(lines, exhaustApiC04(3, stats)...)
+			} else {
+				lines = append(lines, exhaustApiC04(2, stats)...)
+			}
+		}
+		lines = append(lines, genC04W(o.seed+7919, n*2/5, c04ApiWirings, stats)...)
 	}
 	cases := newLineWriter(o.out, "cases.txt")
 	for _, l := range lines {
